@@ -45,7 +45,9 @@ func (j *RemoveUnusedImportApp) Analysis() []models2.JFullIdentifier {
 
 		antlr.NewParseTreeWalker().Walk(listener, context)
 
-		nodes = append(nodes, listener.GetNodeInfo())
+		info := listener.GetNodeInfo()
+		info.FilePath = currentFile
+		nodes = append(nodes, info)
 	}
 
 	return nodes
@@ -55,7 +57,7 @@ func (j *RemoveUnusedImportApp) Refactoring(resultNodes []models2.JFullIdentifie
 	for _, node := range resultNodes {
 		if node.Name != "" {
 			errorLines := BuildErrorLines(node)
-			removeImportByLines(currentFile, errorLines)
+			removeImportByLines(node.FilePath, errorLines)
 		}
 	}
 }
